@@ -189,11 +189,22 @@ def recipe_functions(ctx):
             if not ctx.time_left():
                 return
             xs = [recipes.mat(x) for x in rc.gen(rng)]
+            if rc.obs_extra and rng.random() < 0.35:
+                xs = recipes.add_obs_dim(rng, xs)
             dd = []
             for x in xs:
                 for d in x.dims:
                     if d not in dd and d not in rc.nondata:
                         dd.append(d)
+            # weights with a dimension of their own: a data dimension where the function forwards weights.dims to the
+            # rule, a consistently surviving pass-through dimension elsewhere
+            w = None
+            if rc.weights and rng.random() < 0.35:
+                wd = [d for d in dd if rng.random() < 0.5] + ["wx"]
+                w = gens.rand_da(rng, dict({d: xs[0].sizes[d] if d in xs[0].dims else xs[1].sizes[d] for d in dd}, wx=2), dims=wd, lo=1, hi=3, shuffle=False)
+                w = w.assign_coords({d: (xs[0][d] if d in xs[0].dims else xs[1][d]) for d in wd if d != "wx"})
+                if rc.fwd_weights:
+                    dd = dd + ["wx"]
 
             def call(rd, pd):
                 kw = {}
@@ -201,8 +212,10 @@ def recipe_functions(ctx):
                     kw["reduce_dims"] = rd
                 if pd is not None:
                     kw["preserve_dims"] = pd
+                if w is not None:
+                    kw["weights"] = w
                 return core.call_impl(rc.call, xs, **kw)
-            desc = {"fn": rc.name, "inputs": [gens.da_repr(x) for x in xs]}
+            desc = {"fn": rc.name, "inputs": [gens.da_repr(x) for x in xs], "weights": gens.da_repr(w)}
             ctx.count("recipe:" + rc.name)
             ok, why = scorelib.same_result(call(None, None), call("all", None))
             ctx.case((rc.name, "none=all", desc))
@@ -248,3 +261,8 @@ def run(ctx):
     public_functions(ctx)
     recipe_functions(ctx)
     gather_sweep(ctx)
+
+
+def run_without_model(ctx):
+    """used when the extracted model does not build against the current source: relations between public calls only"""
+    recipe_functions(ctx)
